@@ -27,6 +27,8 @@ def run(ctx):
     plots.colorbar_contract_rule(ctx, "C17.R2")
     plots.c17_data_rules(ctx, "C17.R3", "C17.R4a", "C17.R4b", "C17.R7")
     plots.panel_rule(ctx, "C17.R5")
+    plots.c17_extra_rules(ctx, "C17.R8", "C17.R9", "C17.R10")
+    plots.c17_mesh_rule(ctx, "C17.R11")
 
     def sources(fi):
         s = set()
